@@ -55,10 +55,36 @@ def in_core(site):
     return '/rustlib/' in (site.file or '') or (site.file or '').startswith('/rustc/')
 
 
+_PANIC_HELPERS = {}
+_CUR_F = [None]
+
+
+def is_panic_helper(F, d):
+    """d names a glam-local function that can only panic (an out-of-line cold helper: every terminator is a call into core::panicking / a
+    diverging panic, none returns)"""
+    key = (id(F), d)
+    r = _PANIC_HELPERS.get(key)
+    if r is not None:
+        return r
+    r = False
+    for n_, it_ in F.items.items():
+        if it_.get('d') == d and not it_.get('generic') and F.has_body(it_['key']):
+            b = F.body(it_['key'])
+            terms_ = [bb['t'] for bb in b['blocks'] if bb is not None]
+            calls_ = [t for t in terms_ if t[0] == 'call']
+            r = bool(calls_) and all(t[0] in ('call', 'unreachable', 'goto', 'drop', 'resume') for t in terms_) and \
+                all(re.search(r'(^|::)(core|std)::(panicking|rt)::', t[1].get('d', '')) for t in calls_)
+            break
+    _PANIC_HELPERS[key] = r
+    return r
+
+
 def classify(root_name, it, site, int_fn):
     """-> (allowed: bool, why)"""
     fname = it.get('name') or root_name.rsplit('::', 1)[-1]
     k = site.kind
+    if k.startswith('call:') and not k.startswith('call:core::') and _CUR_F[0] is not None and is_panic_helper(_CUR_F[0], k[5:]):
+        k = 'call:core::panicking::panic_fmt'          # a local `-> !` helper that only panics is the panic itself
     if k in ('assert:misaligned', 'assert:null_deref', 'assert:null', 'assert:invalid_enum'):
         # checks rustc inserts in debug builds in front of raw-pointer dereferences / transmutes: they guard against undefined behaviour,
         # the accesses themselves are covered by R-BOUNDS (size and alignment of the destination)
@@ -91,6 +117,7 @@ def run(ctx):
     ctx.trusted = TRUSTED_COMMON + ['callees on caller-supplied type parameters and core::fmt machinery are outside the claim']
     for cfg in configs:
         F = ctx.facts(cfg)
+        _CUR_F[0] = F
         H = ctx.harness(cfg)
         n_roots = 0
         n_doc = 0
